@@ -31,6 +31,10 @@ CLAIMED = {
    technique="MIR symbolic execution/z3 of one step of module::load's work-list, import and compile loops; recording in-memory Loader around the real function as replay",
    text="Partial: step lemmas over the generic oal_compiler::module::load, not all import graphs. The main module is loaded first; one import step loads/parses a module only on the path where the dependency map has no entry for its locator, and then registers it, adds its node, adds the edge import->importer, records it in the map and enqueues it, each once; a known module only gets the edge from its recorded node; an import that is not valid fails load() before anything is loaded; the compile loop walks the unmodified result of toposort(graph), compiles the module of each node and stops at the first error; load() returns Ok only after toposort returned Ok and every Loader call on the path returned Ok; a failed topological sort fails load() with Kind::CycleDetected and compiles nothing.",
    note="Trusted: MIR text, mirsym, z3; library contracts of HashMap::get/insert and petgraph::toposort (stated). Outside: composition of the steps over a whole run (the deps-map invariant), Locator::join normalisation, termination. A failing lemma is reported only if a recording in-memory Loader driven through the real load() shows a wrong call sequence on one of 9 import graphs (chain, diamond, reordered uses, relative spellings, cycles incl. self-import and through main, missing import)."),
+ "C11": dict(engine="M", category="model_checking", design="DESIGN.md 3/C11",
+   technique="MIR symbolic execution/z3 of the span plumbing (one tokenize iteration per token kind, TokenList, TokenRef, NodeRef::span/start/end, Span::new); real lexer+parser on a corpus as replay",
+   text="Partial: the span plumbing between lexer, token list and tree, not the logos DFA and not the parser productions. One arbitrary iteration of tokenize's loop, for each of the 13 token-kind arms: the token is stored with the lexer's own byte range and its text is the slice of that same range; an error token is reported at the lexer's own range. TokenList::push stores (token, range) unchanged; token_span / TokenRef::span return the stored range of that very token; TokenList::end is the end of the last stored range; Span::new keeps start, end and locator; NodeRef::span runs from the start of the first leaf's span to the end of the last leaf's span and is Some only if both exist; NodeRef::start/end answer a leaf with its own token and search a tree's children from the front / from the back.",
+   note="Trusted: MIR text, mirsym, z3; logos' SpannedIter yields ascending consecutive ranges (third-party). Outside: which ranges the DFA yields, which leaves the parser puts in the tree and in which order, spans of compiler errors. A failing lemma is reported only if the real lexer+parser (drivers/parsedrv) show non-tiling tokens, out-of-order / out-of-text / off-boundary leaves, or a node span that is not the hull of its leaves, on a 10-text corpus."),
  "C12": dict(engine="M", category="model_checking", design="DESIGN.md 3/C12",
    technique="MIR symbolic execution/z3 of the memo protocol (memoize, Context::lookup/cache/without_cache); real parser with vs. without memo as replay",
    text="Partial: the memo protocol, not the whole parser. memoize(tag, ctx, cursor, production): the production runs only on the path where lookup(tag, cursor) is None, at the same cursor; its result is stored under (tag, cursor) after it ran and is what memoize returns; on a hit the stored result is returned, nothing is stored and the production does not run. lookup consults the table only when caching is on and answers from its own table; cache stores only when caching is on; lookup and cache build the same key (cursor, tag); without_cache only flips the switch; Context::new starts with caching on; the two memoised productions use distinct tags. Values unbounded; all paths.",
@@ -58,7 +62,6 @@ NA = {
  "C05": "relates two whole compilations of rewritten programs; same obstacle as C02",
  "C08": "resolver/evaluator scoping over arena trees and HashMap scope stacks; no encoding within reach",
  "C09": "petgraph SCC iteration and SHA-256 naming over arena indices; outside Kani and loop/graph-shaped so outside the MIR engine",
- "C11": "token tiling is a property of the logos DFA (4 symbolic bytes > 20 min) and of the parser+arena (5 concrete tokens > 3 min); the reachable fragments are by-construction identities",
  "C17": "handlers traverse the arena and compare Definitions across a HashMap module set; needs whole trees under a solver",
  "C18": "alpha-equivalence of two whole compilations plus handler traversal; same obstacle",
 }
